@@ -73,6 +73,13 @@ def make_family(name, reg0, ids, mutate=None, symbolic=True):
 def families(eng, tier, seed):
     C = corpus(); fams = []; rnd = random.Random(seed)
     for n, r in C.items(): fams.append(make_family("corpus-" + n, r, None))
+    # closed sub-registries of real chain metadata (concrete)
+    P = polkadot(); roots = user_ids(P); rnd2 = random.Random(seed + 3); rnd2.shuffle(roots); k = 0
+    for r0 in roots:
+        sub, _ = restrict(P, [r0])
+        if 6 <= len(sub) <= (60 if tier == "quick" else 300):
+            fams.append(make_family("polkadot-closure-of-%d" % r0, sub, None, symbolic=False)); k += 1
+        if k >= (5 if tier == "quick" else 40): break
     for n, r in C.items():
         if len(r) > 20 and tier == "quick": continue
         for ti, vi, fi, f in c02.retarget_sites(r):
